@@ -66,6 +66,11 @@ func (e *Engine) renderValue(st *State, verb byte, v Value) []concStrRes {
 				}
 			}
 		}
+		if t, ok := x.V.(*Term); ok && t.W > 0 && t.IsConst() && (verb == 'd' || verb == 'v') {
+			if b, ok := x.T.Underlying().(*types.Basic); ok && b.Info()&types.IsUnsigned != 0 {
+				return []concStrRes{{st, e.StrConst(strconv.FormatUint(t.Val, 10))}}
+			}
+		}
 		return e.renderValue(st, verb, e.payloadForFmt(x))
 	case *StrV:
 		switch verb {
